@@ -54,6 +54,10 @@ Merge(parent, name, kwargs, props) ==
               THEN [k \in DOMAIN inherited \ {"additionalProperties", "additionalPropertiesB"}
                       |-> inherited[k]]
               ELSE inherited
+      (* `dependencies` is ONE keyword (array- and schema-valued entries together) *)
+      inh3 == IF DOMAIN kwargs \cap {"depsL", "depsS"} # {}
+              THEN [k \in DOMAIN inh2 \ {"depsL", "depsS"} |-> inh2[k]]
+              ELSE inh2
       RECURSIVE overlay(_, _)
       overlay(base, ps) ==
         IF Len(ps) = 0 THEN base
@@ -61,7 +65,7 @@ Merge(parent, name, kwargs, props) ==
                  idx == {i \in 1..Len(base) : base[i].attr = p.attr}
              IN overlay(IF idx = {} THEN Append(base, p)
                         ELSE [base EXCEPT ![CHOOSE i \in idx : TRUE] = p], Tail(ps))
-  IN MkObj(name, (inh2 @@ kwargs) @@ [properties |-> overlay(PropsOf(parent), props)])
+  IN MkObj(name, (inh3 @@ kwargs) @@ [properties |-> overlay(PropsOf(parent), props)])
 
 (***************************************************************************)
 (* A validation call: outcome and the writes it performs on the heap       *)
